@@ -65,7 +65,7 @@ NOT_APPLICABLE = {
 }
 
 # properties that will be claimed but whose check is not built yet
-PENDING = {k: "claimed in DESIGN.md; its check is not built yet in this commit" for k in ("C10 C11").split()}
+PENDING = {k: "claimed in DESIGN.md; its check is not built yet in this commit" for k in ("C11").split()}
 
 PROPS = {}
 
@@ -297,3 +297,28 @@ _p('C13', 'exploration',
    level_text='seeded declaration histories with dump / gc / load and dump / restart / load through real pickles and a real second interpreter; sampled evidence',
    technique='deterministic simulation: seeded declaration histories + dump/gc/load and dump/restart(fresh interpreter, other impl/hash seed)/load',
    design_ref='DESIGN.md 3/C13', expected_probes=['provides-roundtrip-identical'])
+
+CPY = [C, PY]
+_p('C10', 'translation_validation',
+   [Part('odd', {}, kind='diff', diff=CPY, quick=2000, thorough=100000, name='diff/odd'),
+    Part('decl', {'super': True}, kind='diff', diff=CPY, quick=1500, thorough=100000, name='diff/decl'),
+    Part('graph', {'props': ['C02', 'C03']}, kind='diff', diff=CPY, quick=2000, thorough=80000, name='diff/graph'),
+    Part('graph', {'props': ['C15'], 'ifaces_only': True}, kind='diff', diff=CPY, quick=1200, thorough=50000, name='diff/graph-attrs'),
+    Part('registry', {'props': ['C04'], 'shape': 'dynamic', 'raising_factories': True, 'log_answers': True}, kind='diff', diff=CPY,
+         quick=2000, thorough=80000, name='diff/registry', timeout=40.0),
+    Part('adapt', {}, kind='diff', diff=CPY, quick=1500, thorough=60000, name='diff/adapt'),
+    Part('components', {}, kind='diff', diff=CPY, quick=1200, thorough=50000, name='diff/components', timeout=40.0),
+    Part('persist', {'what': 'pickle'}, kind='diff', diff=CPY, quick=1500, thorough=60000, name='diff/pickle'),
+    Part('persist', {'what': 'order'}, kind='diff', diff=CPY, quick=1500, thorough=60000, name='diff/order')],
+   rule='one program = one seeded explicit history of one of the machines (declarations + super proxies, specification graphs, registries with every '
+        'lookup entry point logged for every key, adaptation under fault plans, Components, pickling, ordering) or a PRNG-chosen sequence over the '
+        'odd-input catalogue (odd __provides__/__providedBy__ values, foreign comparison operands, cached None with a default, non-string names, '
+        'generators / non-sequences / unhashable operands, wrong arity, super proxies); each program is executed in two worker processes '
+        '(PURE_PYTHON=0 and =1) and the normalised event logs (results, exception types, all later behaviour) are compared line by line; '
+        'programs = programs executed under both implementations; disagreements_checked = log events compared',
+   assumptions=['only exception types are compared, never messages or reprs; memory addresses never enter a log',
+                'operands have the documented types except on the surfaces the property itself names (DESIGN.md 3/C10 vocabulary rule)', REAL_STUB],
+   level_text='differential replay of generated programs under both implementations in separate processes, step-by-step log comparison; sampled programs, '
+              'complete only in the sense that every catalogue entry of the odd machine is reached',
+   technique='deterministic simulation: same seeded programs replayed under PURE_PYTHON=0 and =1, event-log diff',
+   design_ref='DESIGN.md 3/C10')
